@@ -28,8 +28,10 @@ RULE = (
     "membership may change only for the receiver (and descendants) of detach / detach_self / replace. "
     "deser_frame: a tree is serialized, a drawn subset of its nodes is unregistered node by node, "
     "and it is read back in one of the four formats; frame and membership of every original node "
-    "must be unchanged. non-trivial = >= 3 distinct operation families incl. one that creates nodes "
-    "(programs) / a proper non-empty subset unregistered (deser_frame)."
+    "must be unchanged. crowded: at one-byte ids a tree is written and dropped, up to 300 unrelated "
+    "leaves are created (taking over ids the payload names), the payload is read back; frame and "
+    "membership of the crowd and of the dropped nodes must be unchanged. non-trivial = >= 3 distinct operation families incl. one that creates nodes "
+    "(programs) / a proper non-empty subset unregistered (deser_frame) / a payload id held by a node of another class (crowded)."
 )
 ASSUMPTIONS = [
     "the snapshot of pbt/frame.py observes every dataclass field, id, content_id and hash; __dict__-level additions (caches) would not be seen",
@@ -439,7 +441,64 @@ def st_deser_frame(ctx: Ctx):
                                   "mask": st.integers(0, 2**40 - 1), "fmt": st.integers(0, 3)})
 
 
+def check_crowded(data: dict, lab: Labels) -> None:
+    """one-byte ids: a tree is written and dropped, a crowd of unrelated nodes is created (taking over
+    most of the 256 ids, among them ids the payload names), the payload is read back: none of the
+    crowd may change or lose / gain its registry entry, whatever deserialization makes of the clash."""
+    from pyoak import config
+    from pyoak.node import ASTNode
+
+    config.ID_DIGEST_SIZE = 1
+    b, root_e, ex = T.build(data["tree"])
+    root = b.root
+    fmt = data["fmt"] % 4
+    payload: Any = (root.as_dict() if fmt == 0 else root.to_json() if fmt == 1 else root.to_msgpck()
+                    if fmt == 2 else root.to_yaml())
+    named = {n.id: type(n).__name__ for n in T.live_nodes(root)}
+    if data["drop"] % 4:
+        root.detach()
+    else:
+        for n in T.live_nodes(root)[:: 1 + data["drop"] % 3]:
+            n.detach_self()
+    crowd = [M.cls(["LeafA", "LeafB", "SubLeafA", "LeafA"][k % 4])(v=data["base"] + k) for k in range(data["crowd"])]
+    if data["crowd_detach"]:
+        for n in crowd[:: data["crowd_detach"] + 1]:
+            n.detach_self()
+    clash_other = sum(1 for n in crowd if ASTNode.get_any(n.id) is n and n.id in named and named[n.id] != type(n).__name__)
+    clash_same = sum(1 for n in crowd if ASTNode.get_any(n.id) is n and n.id in named and named[n.id] == type(n).__name__)
+    lab.tag_if(clash_other > 0, "payload-id-held-by-node-of-another-class")
+    lab.tag_if(clash_same > 0, "payload-id-held-by-node-of-the-same-class")
+    lab.tag_if(named.get(root.id) is not None and any(n.id == root.id and ASTNode.get_any(n.id) is n for n in crowd),
+               "payload-root-id-held")
+    existing = crowd + T.live_nodes(root)
+    existing = list({id(n): n for n in existing}.values())
+    snap = frame.Snapshot(existing)
+    before = {id(n): ASTNode.get_any(n.id) is n for n in existing}
+    cls = type(root)
+    try:
+        (cls.as_obj(payload) if fmt == 0 else cls.from_json(payload) if fmt == 1
+         else cls.from_msgpck(payload) if fmt == 2 else cls.from_yaml(payload))
+        lab.tag("read")
+    except Exception as exc:  # a clash may make the payload unreadable; the property is about the bystanders
+        lab.tag("rejected:" + type(exc).__name__)
+    d = snap.diff()
+    require(d is None, "existing-node-modified", f"deserialization into a crowded registry: {d}")
+    for n in existing:
+        require((ASTNode.get_any(n.id) is n) == before[id(n)], "registry-membership-changed",
+                f"deserialization into a crowded registry changed the membership of an existing "
+                f"{type(n).__name__} (was registered: {before[id(n)]})")
+    lab.nontrivial = clash_other > 0
+
+
+def st_crowded(ctx: Ctx):
+    g = T.TreeGen(leaves=ctx.pick(5, 8), origin_rate=0.2, servals=True, frozensets=False)
+    return st.fixed_dictionaries({"tree": st.one_of(g.inner_tree(), g.tree()), "fmt": st.integers(0, 3),
+                                  "drop": st.integers(0, 11), "crowd": st.one_of(st.integers(1, 300), st.integers(200, 400)), "base": st.integers(0, 10**6),
+                                  "crowd_detach": st.sampled_from([0, 0, 0, 1, 3])})
+
+
 PARTS = [
+    Part("crowded", check_crowded, strategy=st_crowded, quick=1200, thorough=40000),
     Part("programs", check_program, strategy=st_program, quick=6000, thorough=200000),
     Part("deser_frame", check_deser_frame, strategy=st_deser_frame, quick=4800, thorough=160000),
 ]
